@@ -399,7 +399,8 @@ Inductive obs : Set :=
   | ObsErr (code : Z)                                   (* the simulation refused: error class *)
   | ObsOk (ogroups : list (list res * Z * list res))    (* nodes of ResourceManager.graph after post_setup: names, producer id, dependencies *)
           (oedges : list (res * res))                   (* ResourceManager.graph.edges, as (first name, first name) *)
-          (calls : list (list Z)).                      (* per creation of simulants: initializer ids in call order *)
+          (calls : list (list Z))                       (* per creation of simulants: initializer ids in call order *)
+  | ObsOrder (calls : list (list Z)).                   (* not refused, graph not observable (harness fallback): call orders only *)
 
 Definition rsubset (a b : list res) : bool := forallb (fun x => rmem x b) a.
 Definition esubset (a b : list (res * res)) : bool := forallb (fun x => existsb (edge_eqb x) b) a.
@@ -415,6 +416,49 @@ Definition groups_agree (gs : list group) (ogs : list (list res * Z * list res))
   forallb (fun g => existsb (group_agrees g) ogs) gs &&
   forallb (fun og => existsb (fun g => group_agrees g og) gs) ogs.
 
+(* ---- what the property constrains: the initializer groups and which of them must precede which ----
+   The order of the initializers is constrained exactly by the paths between initializer (column / null) groups; the
+   intermediate nodes (sources, modifiers, values, streams) matter only through those paths.  The correspondence
+   therefore REQUIRES: same initializer groups (columns created, producer) and the same reachability relation among
+   them - and only REPORTS whether the whole graphs are identical (`same_graph`), so that a refactoring that
+   restructures or delays registrations irrelevant to every initializer cannot alarm. *)
+Fixpoint rnodup (l : list res) : list res :=
+  match l with [] => [] | x :: r => if rmem x r then rnodup r else x :: rnodup r end.
+
+Definition succs_of (es : list (res * res)) (u : res) : list res :=
+  map snd (filter (fun e => res_eqb (fst e) u) es).
+
+(* worklist search: every node enters `seen` (and the worklist) at most once *)
+Fixpoint reach (fuel : nat) (es : list (res * res)) (todo seen : list res) : list res :=
+  match fuel with
+  | O => seen
+  | S f => match todo with
+           | [] => seen
+           | u :: r => let new := rnodup (filter (fun v => negb (rmem v seen)) (succs_of es u)) in
+                       reach f es (r ++ new) (seen ++ new)
+           end
+  end.
+
+(* the nodes reachable from u by a non-empty path *)
+Definition descendants (es : list (res * res)) (u : res) : list res :=
+  let s := rnodup (succs_of es u) in reach (2 * length es + 2) es s s.
+
+Definition same_constraints (inits : list res) (es es' : list (res * res)) : bool :=
+  forallb (fun a => let d := descendants es a in let d' := descendants es' a in
+                    forallb (fun b => Bool.eqb (rmem b d) (rmem b d')) inits) inits.
+
+Definition init_group_agrees (g : group) (og : list res * Z * list res) : bool :=
+  let '(n, p, _) := og in list_eqb res_eqb (g_names g) n && (g_prod g =? p).
+
+Definition okey (og : list res * Z * list res) : res := hd (RNull (-1)) (fst (fst og)).
+
+Definition init_groups_agree (gs : list group) (ogs : list (list res * Z * list res)) : bool :=
+  let igs := filter (fun g => is_init (key g)) gs in
+  let iogs := filter (fun og => is_init (okey og)) ogs in
+  Nat.eqb (length igs) (length iogs) &&
+  forallb (fun g => existsb (init_group_agrees g) iogs) igs &&
+  forallb (fun og => existsb (fun g => init_group_agrees g og) igs) iogs.
+
 Definition case : Set := (list Z * list decl * obs)%type.
 
 Definition check_case (c : case) : bool :=
@@ -423,16 +467,26 @@ Definition check_case (c : case) : bool :=
   | Rejected e => match ob with ObsErr code => refusal_agrees e code | _ => false end
   | OutOfFuel => false
   | Ok gs =>
+      let T := saturate (S (length ds)) kc ds [] in
       match sort_groups gs, ob with
       | Rejected e, ObsErr code => refusal_agrees e code
       | Ok o, ObsOk ogs oes calls =>
-          let T := saturate (S (length ds)) kc ds [] in
-          groups_agree gs ogs
-          && esubset (edges_of gs) oes && esubset oes (edges_of gs)
+          init_groups_agree gs ogs
+          && same_constraints (filter is_init (nodes_of gs)) (edges_of gs) oes
           && respects_with kc ds T o                             (* the model's own order passes the checker *)
           && forallb (respects_with kc ds T) calls               (* and so does every observed call order *)
+      | Ok o, ObsOrder calls =>
+          respects_with kc ds T o && forallb (respects_with kc ds T) calls
       | _, _ => false
       end
+  end.
+
+(* the whole graphs are identical, node for node and edge for edge (reported by the harness, not required) *)
+Definition same_graph (c : case) : bool :=
+  let '(kc, ds, ob) := c in
+  match build kc ds, ob with
+  | Ok gs, ObsOk ogs oes _ => groups_agree gs ogs && esubset (edges_of gs) oes && esubset oes (edges_of gs)
+  | _, _ => true
   end.
 
 (* the model's Kahn order equals the observed one exactly (reported by the harness, not required) *)
